@@ -188,7 +188,7 @@ def gen_parametric(rng):
     conds = ["ge(_, %d)", "le(_, %d)", "eq(_, %d)", "ne(_, %d)", "bit_set(%d)", "bit_clear(%d)", "bit_count_ge(_, %d)", "gt([0:4], %d)", "lt([1:3], %d)"]
     k = rng.randint(0, 3)
     c = rng.choice(conds) % k
-    form = rng.randint(0, 6)
+    form = rng.randint(0, 9)
     R = []   # (lhs, [(kind, sym, param)], cond)
     if form == 0:
         text = 'start: item::0\nitem::_: "a" item::incr([0:3]) | tail::_\ntail::_: "b" %%if %s\n' % c
@@ -224,6 +224,34 @@ def gen_parametric(rng):
         text = 'start: "d" w::%d\nw::_ : v::%s\nv::_ : "a" w::_ "e" | "b" %%if %s\n' % (s0, tf, c)
         R = [("start", [("T", "d", None), ("N", "w", str(s0))], None), ("w", [("N", "v", tf)], None), ("v", [("T", "a", None), ("N", "w", "_"), ("T", "e", None)], None), ("v", [("T", "b", None)], c)]
         par = {"w", "v"}
+    elif form == 7:
+        # an empty alternative guarded by a compound condition (negation over and/or): decides when the symbol may be skipped
+        atoms = ["bit_set(0)", "bit_set(1)", "bit_clear(2)", "ge(_, 2)", "eq([0:2], 1)", "bit_count_ge(_, 2)"]
+        a1, a2 = rng.sample(atoms, 2)
+        cc = rng.choice(["not(or(%s, %s))", "not(and(%s, %s))", "and(%s, not(%s))", "or(not(%s), %s)", "not(not(and(%s, %s)))", "and(not(%s), not(%s))"]) % (a1, a2)
+        s0 = rng.randint(0, 7)
+        text = 'start: opt::%d "e"\nopt::_ : "a" | "" %%if %s\n' % (s0, cc)
+        R = [("start", [("N", "opt", str(s0)), ("T", "e", None)], None), ("opt", [("T", "a", None)], None), ("opt", [], cc)]
+        par = {"opt"}
+    elif form == 8:
+        atoms = ["bit_set(0)", "bit_set(1)", "le(_, 1)", "ne([0:2], 2)"]
+        a1, a2 = rng.sample(atoms, 2)
+        cc = rng.choice(["not(or(%s, %s))", "not(and(%s, %s))", "or(%s, %s)", "and(%s, %s)"]) % (a1, a2)
+        s0 = rng.randint(0, 3)
+        # nullability through a chain: outer is skippable only if inner is, at the same parameter
+        text = 'start: "d" outer::%d "e"\nouter::_ : inner::_ | "c"\ninner::_ : "b" | "" %%if %s\n' % (s0, cc)
+        R = [("start", [("T", "d", None), ("N", "outer", str(s0)), ("T", "e", None)], None), ("outer", [("N", "inner", "_")], None), ("outer", [("T", "c", None)], None),
+             ("inner", [("T", "b", None)], None), ("inner", [], cc)]
+        par = {"outer", "inner"}
+    elif form == 9:
+        # a skippable symbol reached through a reference that transforms the parameter: a::p may be skipped only if b::f(p) may
+        tf = rng.choice(["incr([0:2])", "set_bit(0)", "bit_or(2)", "decr([0:2])", "bit_and(1)"])
+        cc = rng.choice(["is_zeros([0:2])", "bit_clear(0)", "eq(_, 1)", "ge(_, 2)", "bit_set(1)"])
+        s0 = rng.randint(0, 3)
+        text = 'start: a::%d "e"\na::_ : "c" | b::%s\nb::_ : "d" | "" %%if %s\n' % (s0, tf, cc)
+        R = [("start", [("N", "a", str(s0)), ("T", "e", None)], None), ("a", [("T", "c", None)], None), ("a", [("N", "b", tf)], None),
+             ("b", [("T", "d", None)], None), ("b", [], cc)]
+        par = {"a", "b"}
     else:
         m = rng.choice([3, 5, 6])
         text = 'start: x::%d\nx::_: "a" x::bit_and(%d) %%if %s\n    | "b" x::bit_or(1) %%if bit_clear(0)\n    | "c"\n' % (rng.randint(0, 7), m, c)
